@@ -460,7 +460,30 @@ func (e *Enc) assertsAt(fr *frame, b *ssa.BasicBlock, idx int, in ssa.Instructio
 	}
 	line := e.P.srcLine(in.Pos())
 	for _, a := range e.C.AssertsAt {
-		if !strings.Contains(line, a.Anchor) || (e.assertDone[a] && a.Nth >= 0) {
+		anchor := a.Anchor
+		// an anchor may name the kind of statement it means: "binop:", "call:", "store:", "return:"
+		for _, kd := range []string{"binop", "call", "store", "return", "mapupdate"} {
+			if strings.HasPrefix(anchor, kd+":") {
+				anchor = strings.TrimPrefix(anchor, kd+":")
+				ok := false
+				switch in.(type) {
+				case *ssa.BinOp:
+					ok = kd == "binop"
+				case *ssa.Call:
+					ok = kd == "call"
+				case *ssa.Store:
+					ok = kd == "store"
+				case *ssa.Return:
+					ok = kd == "return"
+				case *ssa.MapUpdate:
+					ok = kd == "mapupdate"
+				}
+				if !ok {
+					anchor = "\x00never"
+				}
+			}
+		}
+		if !strings.Contains(line, anchor) || (e.assertDone[a] && a.Nth >= 0) {
 			continue
 		}
 		if a.Nth > 0 {
@@ -587,6 +610,41 @@ func (e *Enc) checkPost(fr *frame, st *bstate, rs []Val, ret *ssa.Return) {
 	}
 	if e.C == nil {
 		return
+	}
+	if !fr.inlined {
+		// ordering clauses: this return has to come after a given statement (dominance in the
+		// control-flow graph), unless it comes after one of the listed exceptions
+		for _, ra := range e.C.ReturnsAfter {
+			domBy := func(anchor string) bool {
+				for _, b := range fr.fn.Blocks {
+					if !(b == ret.Block() || b.Dominates(ret.Block())) {
+						continue
+					}
+					for _, in := range b.Instrs {
+						if in == ssa.Instruction(ret) {
+							break
+						}
+						switch in.(type) {
+						case *ssa.Call, *ssa.Store, *ssa.MapUpdate, *ssa.BinOp, *ssa.Defer, *ssa.Go:
+							if in.Pos().IsValid() && strings.Contains(e.P.srcLine(in.Pos()), anchor) {
+								return true
+							}
+						}
+					}
+				}
+				return false
+			}
+			ok := domBy(ra.After)
+			for _, u := range ra.Unless {
+				ok = ok || domBy(u)
+			}
+			if !ok {
+				o := e.oblige(st, "order", fmt.Sprintf("%s@%s", ra.After, e.anchor(ret.Pos(), "return")), "false", ret.Pos())
+				if o != nil {
+					o.Detail = "this return is not preceded by \"" + ra.After + "\" (nor by one of the listed exceptions)"
+				}
+			}
+		}
 	}
 	for i, cl := range e.C.Ensures {
 		if cl.Assumed {
